@@ -39,6 +39,138 @@ def _(self: Obj['rbql_sqlite.SqliteRecordIterator'], db_connection: Obj['sqlite3
     requires(not ('\n' in table_name), 'identifier_from_query_text_has_no_line_break')
     # C06: whatever the identifier is, the only thing that can reach sqlite is SELECT * FROM <letters/digits/underscore>;
     ensures(ident_upto(table_name, len(table_name)) and self.cursor.sent == ['SELECT * FROM ' + table_name + ';'], 'only_a_select_from_a_plain_identifier_is_sent')
+    ensures(same(self.db_connection, db_connection) and self.table_name == table_name and self.variable_prefix == variable_prefix and is_fresh(self.cursor), 'configured_as_given')
     raises('rbql_engine.RbqlIOHandlingError', len(self.cursor.sent) == 0 or (ident_upto(table_name, len(table_name)) and self.cursor.sent == ['SELECT * FROM ' + table_name + ';']), 'hostile_identifier_rejected_before_anything_is_sent')
     raises('sqlite3.OperationalError', ident_upto(table_name, len(table_name)) and self.cursor.sent == ['SELECT * FROM ' + table_name + ';'], 'only_a_select_from_a_plain_identifier_is_sent')
-    modifies(self, anything())
+    modifies(self, fresh_only())
+
+
+# ---------------------------------------------------------------- the rest of the sqlite front end (C13 entry point, C15 file closing)
+classdef('sqlite3.Cursor', ghost=dict(names=Seq[Str]))
+classdef('rbql_sqlite.SqliteDbRegistry', bases=['rbql_engine.RBQLTableRegistry'], fields=dict(db_connection=Obj['sqlite3.Connection'], record_iterator=Obj['rbql_sqlite.SqliteRecordIterator']))
+
+
+@trusted('builtins.open#w', trusted='A-IO: open(path, "w..") returns a new, open file object for writing or raises OSError')
+def _(path: Str, mode: Str) -> Obj['io.OutStream']:
+    ensures(is_fresh(result) and allocated(result) and not result.closed and result.written == '', 'a_new_open_file')
+    raises('OSError', True, 'cannot_open')
+
+
+@trusted('rbql_csv.is_ascii', trusted='pure text predicate (all characters below 128): generator expression, outside the subset')
+def _(s: Str) -> Bool:
+    pass
+
+
+@trusted('os.path.join', trusted='A-IO: pure path arithmetic')
+def _(a: Str, b: Str) -> Str:
+    pass
+
+
+@trusted('os.path.expanduser', trusted='A-IO: pure path arithmetic over the environment')
+def _(a: Str) -> Str:
+    pass
+
+
+@trusted('os.path.exists', trusted='A-IO: file system lookup; changes nothing')
+def _(a: Str) -> Bool:
+    pass
+
+
+@trusted('os.path.dirname', trusted='A-IO: pure path arithmetic')
+def _(a: Str) -> Str:
+    pass
+
+
+@trusted('rbql_csv.read_user_init_code', trusted='A-IO: reads the text of ~/.rbql_init_source.py (opens and closes that file itself)')
+def _(rbql_init_source_path: Str) -> Str:
+    raises('OSError', True, 'cannot_read')
+
+
+@contract('rbql_sqlite.SqliteRecordIterator.get_warnings', name='C14.sqlite.iterator.get_warnings', props=['C14', 'C13'])
+def _(self: Obj['rbql_sqlite.SqliteRecordIterator']) -> List[Str]:
+    ensures(len(result) == 0 and is_fresh(result), 'no_warnings')
+
+
+@contract('rbql_sqlite.SqliteDbRegistry.__init__', name='C13.sqlite.registry.init', props=['C13', 'C16'], store_policy='none')
+def _(self: Obj['rbql_sqlite.SqliteDbRegistry'], db_connection: Obj['sqlite3.Connection']):
+    ensures(same(self.db_connection, db_connection), 'registered_as_given')
+    modifies(self)
+
+
+@contract('rbql_sqlite.SqliteDbRegistry.get_iterator_by_table_id', name='C13.sqlite.registry.lookup', props=['C13', 'C06', 'C16'], store_policy='none')
+def _(self: Obj['rbql_sqlite.SqliteDbRegistry'], table_id: Str, single_char_alias: Str) -> Opt[Obj['rbql_sqlite.SqliteRecordIterator']]:
+    requires(not ('\n' in table_id), 'identifier_from_query_text_has_no_line_break')
+    # every lookup creates a NEW iterator over the registry's connection, under the alias asked for; only a SELECT over a plain identifier is sent
+    ensures(not is_none(result) and is_fresh(opt_val(result)) and same(opt_val(result).db_connection, self.db_connection) and opt_val(result).table_name == table_id
+            and opt_val(result).variable_prefix == single_char_alias, 'a_new_iterator_over_the_same_connection')
+    ensures(ident_upto(table_id, len(table_id)) and opt_val(result).cursor.sent == ['SELECT * FROM ' + table_id + ';'], 'only_a_select_from_a_plain_identifier_is_sent')
+    raises('rbql_engine.RbqlIOHandlingError', True, 'no_such_table_or_hostile_identifier')
+    raises('sqlite3.OperationalError', True, 'sqlite_error')
+    modifies(self, fresh_only())
+
+
+classdef('sqlite3.Cursor', fields=dict(description=List[Tuple[Str, Str]]), ghost=dict(result_rows=Seq[RecV], fetched=Int))
+classdef('rbql_sqlite.SqliteRecordIterator', ghost=dict(names=Seq[Str]))
+
+
+@pred
+def names_are_description(self):
+    # ghost definition + A-DEP: the column names of the table are the first components of the entries of cursor.description (sqlite3 keeps
+    # them for the statement executed on that cursor; the other six components of an entry are None and are not modelled)
+    return len(self.names) == len(self.cursor.description) and forall(Int, lambda i: implies(0 <= i and i < len(self.names), contents(self.cursor.description)[i][0] == self.names[i]))
+
+
+@contract('rbql_sqlite.SqliteRecordIterator.get_header', name='C09.sqlite.get_header', props=['C09', 'C07', 'C06'])
+def _(self: Obj['rbql_sqlite.SqliteRecordIterator']) -> List[Str]:
+    assumes(names_are_description(self), 'ghost-def / A-DEP: names are the first components of cursor.description')
+    # the header is read off the cursor the records come from (so names and fields are positions of the same SELECT *), as a new list; nothing is sent to sqlite
+    uses_at_exit(seq_ext_str(contents(result), self.names, len(self.names)))
+    ensures(is_fresh(result) and contents(result) == self.names, 'the_column_names_of_the_records_cursor')
+    ensures(self.cursor.sent == old(self.cursor.sent), 'nothing_is_sent_to_sqlite')
+
+
+@trusted('sqlite3.Cursor.fetchone', trusted='A-DEP: fetchone() hands out the rows of the result set in order, then None for ever; it sends nothing')
+def _(self: Obj['sqlite3.Cursor']) -> Opt[Seq[Cell]]:
+    ensures(implies(old(self.fetched) < len(self.result_rows), not is_none(result) and opt_val(result) == self.result_rows[old(self.fetched)] and self.fetched == old(self.fetched) + 1), 'next_row')
+    ensures(implies(old(self.fetched) >= len(self.result_rows), is_none(result) and self.fetched == old(self.fetched)), 'exhausted')
+    ensures(self.result_rows == old(self.result_rows) and self.sent == old(self.sent), 'result_set_fixed')
+    modifies(field(self, 'fetched'))
+
+
+@contract('rbql_sqlite.SqliteRecordIterator.get_record', name='C13.sqlite.iterator.get_record', props=['C13', 'C06'], store_policy='none')
+def _(self: Obj['rbql_sqlite.SqliteRecordIterator']) -> Opt[List[Cell]]:
+    # refinement of IF.iterator.get_record over the rows of the cursor: the k-th pull hands out the k-th row as a NEW list (so expressions may
+    # concatenate it), then None for ever; nothing is sent to sqlite
+    ensures(implies(old(self.cursor.fetched) < len(self.cursor.result_rows),
+                    not is_none(result) and is_fresh(opt_val(result)) and contents(opt_val(result)) == self.cursor.result_rows[old(self.cursor.fetched)] and self.cursor.fetched == old(self.cursor.fetched) + 1), 'next')
+    ensures(implies(old(self.cursor.fetched) >= len(self.cursor.result_rows), is_none(result) and self.cursor.fetched == old(self.cursor.fetched)), 'exhausted')
+    ensures(self.cursor.result_rows == old(self.cursor.result_rows) and self.cursor.sent == old(self.cursor.sent), 'result_set_fixed_nothing_sent')
+    modifies(field(self.cursor, 'fetched'), fresh_only())
+
+
+@contract('rbql_sqlite.query_sqlite_to_csv', name='C15.query_sqlite_to_csv', props=['C15', 'C13', 'C06'], store_policy='none')
+def _(query_text: Str, db_connection: Obj['sqlite3.Connection'], input_table_name: Str, output_path: Opt[Str], output_delim: Str, output_policy: Str, output_csv_encoding: Opt[Str],
+      output_warnings: List[Str], user_init_code: Str, colorize_output: Bool):
+    requires(not ('\n' in input_table_name), 'table_name_has_no_line_break')
+    requires(is_none(output_csv_encoding) or opt_val(output_csv_encoding) == 'utf-8' or opt_val(output_csv_encoding) == 'latin-1', 'known_encoding')
+    requires(not colorize_output, 'colours_off')
+    local_types(output_stream=Opt[Obj['io.OutStream']], join_tables_registry=Opt[Obj['rbql_sqlite.SqliteDbRegistry']], input_iterator=Obj['rbql_sqlite.SqliteRecordIterator'],
+                output_writer=Obj['rbql_csv.CSVWriter'])
+    # C15: the output file this function opened (exactly when a path was given) is closed on EVERY path out of it -- normal return, a query error
+    # of any kind, a failure to open -- and nothing it did not open is closed by it
+    ensures(close_output_on_finish == (not is_none(output_path)) and implies(close_output_on_finish, not is_none(output_stream) and opt_val(output_stream).closed), 'output_file_closed')
+    raises('rbql_engine.RbqlParsingError', implies(close_output_on_finish, not is_none(output_stream) and opt_val(output_stream).closed), 'output_file_closed_on_query_error')
+    raises('rbql_engine.RbqlRuntimeError', implies(close_output_on_finish, not is_none(output_stream) and opt_val(output_stream).closed), 'output_file_closed_on_query_error')
+    raises('rbql_engine.RbqlIOHandlingError', implies(close_output_on_finish, not is_none(output_stream) and opt_val(output_stream).closed), 'output_file_closed_on_query_error')
+    raises('SyntaxError', implies(close_output_on_finish, not is_none(output_stream) and opt_val(output_stream).closed), 'output_file_closed_on_query_error')
+    raises('AssertionError', implies(close_output_on_finish, not is_none(output_stream) and opt_val(output_stream).closed), 'output_file_closed_on_query_error')
+    raises('sqlite3.OperationalError', implies(close_output_on_finish, not is_none(output_stream) and opt_val(output_stream).closed), 'output_file_closed_on_query_error')
+    raises('RuntimeError', implies(close_output_on_finish, not is_none(output_stream) and opt_val(output_stream).closed), 'output_file_closed_on_unknown_policy')
+    raises('OSError', not close_output_on_finish or (not is_none(output_stream) and opt_val(output_stream).closed), 'nothing_left_open')
+    # C13: the engine gets a new iterator over the caller's connection and table, a new unused CSV writer over the output stream, and a registry over the same connection
+    cut('rbql_engine.query(', same(input_iterator.db_connection, db_connection) and input_iterator.table_name == input_table_name and input_iterator.variable_prefix == 'a', 'engine_reads_the_callers_table')
+    cut('rbql_engine.query(', not is_none(join_tables_registry) and same(opt_val(join_tables_registry).db_connection, db_connection), 'join_tables_come_from_the_same_connection')
+    cut('rbql_engine.query(', not is_none(output_stream) and output_writer.close_stream_on_finish == close_output_on_finish
+        and fresh_writer(output_writer) and not output_writer.sorted_iface and output_writer.header_calls == 0 and not same(output_writer, input_iterator)
+        and close_output_on_finish == (not is_none(output_path)) and implies(close_output_on_finish, allocated(opt_val(output_stream))), 'engine_writes_through_a_new_unused_csv_writer')
+    modifies(anything())
